@@ -51,7 +51,7 @@ Proof.
 Qed.
 
 Lemma RM_run_existing_cmd t tid a b : RM (fst t) (fst (run_existing_cmd t tid a b)).
-Proof. unfold run_existing_cmd. simpl. destruct (_ && _); [frame|apply RM_refl]. Qed.
+Proof. unfold run_existing_cmd. simpl. destruct (_ && _); [frame|]. destruct (_ && _); [frame|apply RM_refl]. Qed.
 
 Lemma RM_check_affected sp t tid : RM (fst t) (fst (check_affected sp t tid)).
 Proof.
